@@ -60,6 +60,75 @@ pub fn decode_random(src: &mut Source) -> Box<dyn Case> {
     Box::new(C17Case { pairs, perm, warmup: false })
 }
 
+/// pool-based call sequences: few distinct sequences (many of them 0-2 items long), called in
+/// random (first, second) combinations on one instance - the same content comes back in either
+/// position again and again
+#[derive(Clone, Debug, Hash)]
+pub struct C17Calls {
+    pub pool: Vec<Vec<char>>,
+    pub calls: Vec<(usize, usize)>,
+}
+
+pub fn decode_calls(src: &mut Source) -> Box<dyn Case> {
+    let k = *src.pick(&[2usize, 3, 4, 6, 10]);
+    let np = src.range(2, 5);
+    let mut pool: Vec<Vec<char>> = Vec::new();
+    for _ in 0..np {
+        let v: Vec<char> = match src.weighted(&[4, 4, 3, 2, 2]) {
+            0 => vec![sym(src.below(k))],
+            1 => (0..2).map(|_| sym(src.below(k))).collect(),
+            2 => gen_seq(src, k),
+            3 if !pool.is_empty() => {
+                // an earlier entry extended
+                let mut v = src.pick(&pool).clone();
+                for _ in 0..src.range(1, 25) {
+                    v.push(sym(src.below(k)));
+                }
+                v
+            }
+            _ => Vec::new(),
+        };
+        pool.push(v);
+    }
+    let mut calls = Vec::new();
+    while calls.len() < 12 && (calls.len() < 3 || src.chance(5, 6)) {
+        calls.push((src.below(pool.len()), src.below(pool.len())));
+    }
+    Box::new(C17Calls { pool, calls })
+}
+
+impl Case for C17Calls {
+    fn describe(&self) -> Value {
+        json!({"pool": self.pool.iter().map(|v| v.iter().collect::<String>()).collect::<Vec<_>>(), "calls_first_second": self.calls})
+    }
+    fn key(&self) -> u64 {
+        hash64(self)
+    }
+    fn check(&self, ctx: &mut Ctx) -> Result<(), Violation> {
+        let shared: Jaccard<char> = Jaccard::new();
+        let mut seen_partial = false;
+        for (n, &(i, j)) in self.calls.iter().enumerate() {
+            let (a, b) = (&self.pool[i], &self.pool[j]);
+            let exp = reference(a, b);
+            // fresh copies: same content, new addresses
+            let (a2, b2) = (a.clone(), b.clone());
+            let got = shared.similarity(&a2, &b2);
+            if got != exp {
+                return ctx.fail("history-independence", "", format!("call #{} similarity({:?}, {:?}) = {} but |A∩B|/|A∪B| = {}; earlier calls on the same instance (pool indices): {:?}, pool {:?}", n, a.iter().collect::<String>(), b.iter().collect::<String>(), got, exp, &self.calls[..n], self.pool.iter().map(|v| v.iter().collect::<String>()).collect::<Vec<_>>()));
+            }
+            if exp > 0.0 && exp < 1.0 {
+                seen_partial = true;
+            }
+        }
+        ctx.label_if(self.pool.iter().any(|v| v.len() > 20), "beyond-initial-capacity");
+        ctx.label_if(self.pool.iter().any(|v| v.len() == 1), "one-item-sequence");
+        if seen_partial {
+            ctx.nontrivial();
+        }
+        Ok(())
+    }
+}
+
 pub fn decode_small(src: &mut Source) -> Box<dyn Case> {
     let la = src.below(5);
     let a: Vec<char> = (0..la).map(|_| sym(src.below(4))).collect();
@@ -212,6 +281,7 @@ pub fn def() -> PropDef {
         spaces: vec![
             Space { name: "small", decode: decode_small, plan: |t| match t { Tier::Quick => Plan::Enumerate(enumerate_pairs(4, 4), true, "all ordered pairs of sequences of length <= 4 over 4 symbols"), Tier::Thorough => Plan::Enumerate(enumerate_pairs(5, 4), true, "all ordered pairs of sequences of length <= 5 over 4 symbols") } },
             Space { name: "random", decode: decode_random, plan: |t| Plan::Random(t.n(300_000, 6_000_000)) },
+            Space { name: "calls", decode: decode_calls, plan: |t| Plan::Random(t.n(200_000, 4_000_000)) },
         ],
         differential: false,
         floors: &[],
